@@ -172,3 +172,22 @@ mod bitslice {
 }
 #[cfg(feature = "bit-vec")]
 pub use bitslice::BitSliceOf;
+
+// Unsized pointees behind owning pointers: `Box<[T]>`, `Rc<[T]>`, `Arc<[T]>`, `Box<str>`, `Rc<str>`, `Arc<str>`
+// (encode-only in the crate: the wrapper blanket impl is `?Sized`).
+macro_rules! unsized_slice_modeled {
+	($($p:ident),*) => {$(
+		impl<T: Modeled> Modeled for $p<[T]> {
+			fn ty() -> Ty { slice_ty::<T>() }
+			fn from_val(v: &Val) -> Self { T::seq_from_val(v).into() }
+			fn to_val(&self) -> Val { T::seq_to_val(self.iter(), self.len()) }
+		}
+		impl Modeled for $p<str> {
+			fn ty() -> Ty { Ty::Str }
+			fn from_val(v: &Val) -> Self { String::from_val(v).into() }
+			fn to_val(&self) -> Val { self.to_string().to_val() }
+		}
+	)*};
+}
+use std::{rc::Rc, sync::Arc};
+unsized_slice_modeled!(Box, Rc, Arc);
